@@ -1,5 +1,6 @@
 import GroupbyVerif.Model.Spec
 import GroupbyVerif.Model.GenTable
+import GroupbyVerif.Model.GroupBy
 
 /-!
 # Line protocol: parsing and printing (import-free)
@@ -75,6 +76,16 @@ def showGroups (ng : Nat) (f : Int → Partial) : String :=
   ",".intercalate ((List.range ng).map fun g => showPartial (f (Int.ofNat g)))
 
 def showVals (vs : List Val) : String := ",".intercalate (vs.map Val.toStr)
+
+/-- `1,_,3;2,2,_` : key columns separated by `;`, `_` = null -/
+def parseKeyCols (s : String) : Option (List (List (Option Nat))) :=
+  (s.splitOn ";").mapM fun col => (splitComma col).mapM fun t =>
+    if t == "_" then some none else (parseNat t).map some
+
+def showKey (l : Key) : String := ".".intercalate (l.map toString)
+
+def showLabelled (r : List (Key × Partial)) : String :=
+  if r.isEmpty then "-" else "|".intercalate (r.map fun (l, p) => s!"{showKey l}:{showPartial p}")
 
 def showInts (vs : List Int) : String := ",".intercalate (vs.map toString)
 
